@@ -100,4 +100,34 @@ def handleExp : List String → String
     encOutcome (expected (fun v => v.ty == .userdata && v.cls == c) (decKind k) (decOvs ovs) (decStack st))
   | _ => "bad-op"
 
+/-! registration: `regs <scope>/<scope>..`; scope = `<class>;<class>..#<fn>,<fn>..` (`-` for none);
+    class = `<ctorNameId>@<fn>,<fn>..`; fn = `<nameId>.<luaId>.<implId>.<f|c|m|d>` -/
+def decWFn (s : String) : WFn :=
+  match s.splitOn "." with
+  | [n, l, i, k] => ⟨n.toNat!, l.toNat!, i.toNat!,
+      if k == "c" then .ctor else if k == "m" then .method else if k == "d" then .dtor else .free⟩
+  | _ => ⟨0, 0, 0, .free⟩
+
+def decWFns (s : String) : List WFn := if s == "-" then [] else (s.splitOn ",").map decWFn
+
+def decClassD (s : String) : ClassD :=
+  match s.splitOn "@" with
+  | [c, fs] => ⟨c.toNat!, decWFns fs⟩
+  | _ => ⟨0, []⟩
+
+def decScopeD (s : String) : ScopeD :=
+  match s.splitOn "#" with
+  | [cs, fs] => ⟨if cs == "-" then [] else (cs.splitOn ";").map decClassD, decWFns fs⟩
+  | _ => ⟨[], []⟩
+
+def encRegs (l : List (Nat × Nat)) : String :=
+  if l.isEmpty then "-" else ",".intercalate (l.map (fun p => toString p.1 ++ ">" ++ toString p.2))
+
+def handleRegs : List String → String
+  | [sc] =>
+    let scopes := (sc.splitOn "/").map decScopeD
+    let classes := scopes.flatMap (·.classes)
+    "M=" ++ encRegs (moduleRegs scopes) ++ String.join (classes.map (fun c => " C=" ++ encRegs (classRegs c)))
+  | _ => "bad-op"
+
 end Driver
